@@ -11,10 +11,15 @@
 (*                         topmost (repaired)                               *)
 (*   EnterOnFocusIn TRUE : terminal focus-in sends MouseEnter to the root   *)
 (*                         without recording it (as found)                  *)
+(*   StaleTarget    TRUE : the target phase goes to the last widget of the  *)
+(*                         path instead of the focused widget (a regression *)
+(*                         that only shows when the focused widget is not   *)
+(*                         part of the last frame: the path is then just    *)
+(*                         the root)                                        *)
 (* Handlers are modelled by a table: cons = <<w, ph>> (that handler         *)
 (* consumes the event) or <<>>.                                             *)
 EXTENDS Integers, Sequences, FiniteSets
-CONSTANTS StalePath, AllSiblings, EnterOnFocusIn
+CONSTANTS StalePath, AllSiblings, EnterOnFocusIn, StaleTarget
 
 R == INSTANCE Routing
 
@@ -23,6 +28,10 @@ Offer(w, ph, cls, ret) == [w |-> w, ph |-> ph, cls |-> cls, ret |-> ret]
 Consume == [c |-> "consume"]
 
 Im0 == [focused |-> 1, path |-> <<1>>, hits |-> <<>>, mouse |-> <<>>]
+
+(* focusHandler.findPath on the last frame (layout 1 of T): the path to f    *)
+(* when f is part of that frame, else just the root                          *)
+FindPath(T, f) == IF R!Present(T, T.lays[1], f) THEN R!PathTo(T, f) ELSE <<1>>
 
 (* the three loops shared by focusHandler.handleEvent and                    *)
 (* mouseHandler.handleEvent: capture over the whole list (the last element   *)
@@ -54,15 +63,15 @@ Dispatch(T, list, target, cls, cons, ret) ==
 (* focusHandler.focusWidget *)
 Focus(T, im, f) ==
   IF im.focused = f THEN [im |-> im, offers |-> <<>>]
-  ELSE [im |-> [im EXCEPT !.focused = f, !.path = IF StalePath THEN @ ELSE R!PathTo(T, f)],
+  ELSE [im |-> [im EXCEPT !.focused = f, !.path = IF StalePath THEN @ ELSE FindPath(T, f)],
         offers |-> <<Offer(im.focused, "tgt", "fout", Nil), Offer(f, "tgt", "fin", Nil)>>]
 
 (* a key: cons consumes it; when fkey > 0 the target handler answers with    *)
 (* focus(fkey) + consume instead                                             *)
 Key(T, im, cls, cons, fkey) ==
   LET ret == IF fkey > 0 THEN [c |-> "batch", l |-> <<[c |-> "focus", w |-> fkey], Consume>>] ELSE Consume
-      cs  == IF fkey > 0 THEN <<im.focused, "tgt">> ELSE cons
-      d   == Dispatch(T, im.path, im.focused, cls, cs, ret)
+      cs  == IF fkey > 0 THEN <<IF StaleTarget THEN im.path[Len(im.path)] ELSE im.focused, "tgt">> ELSE cons
+      d   == Dispatch(T, im.path, IF StaleTarget THEN im.path[Len(im.path)] ELSE im.focused, cls, cs, ret)
       foc == IF fkey > 0 /\ \E i \in 1..Len(d) : d[i].ph = "tgt" THEN Focus(T, im, fkey) ELSE [im |-> im, offers |-> <<>>]
   IN [im |-> foc.im, offers |-> d \o foc.offers]
 
@@ -97,6 +106,10 @@ TFocusOut(im) ==
 TFocusIn(im) ==
   [im |-> im, offers |-> IF EnterOnFocusIn THEN <<Offer(1, "tgt", "enter", Nil)>> ELSE <<>>]
 
-(* one frame on an unchanged layout: layout, mouse update (no change), render, updatePath *)
-Frame(T, im) == [im EXCEPT !.path = R!PathTo(T, im.focused)]
+(* one frame on an unchanged layout: layout, mouse update (no change), render, *)
+(* updatePath (refocus the root when the focused widget is not in the frame)   *)
+Frame(T, im) ==
+  IF R!Present(T, T.lays[1], im.focused) THEN [im |-> [im EXCEPT !.path = R!PathTo(T, im.focused)], offers |-> <<>>]
+  ELSE [im |-> [im EXCEPT !.focused = 1, !.path = <<1>>],
+        offers |-> <<Offer(im.focused, "tgt", "fout", Nil), Offer(1, "tgt", "fin", Nil)>>]
 =============================================================================
